@@ -451,7 +451,12 @@ def gen_text_precision_case(rng):
         else:
             ops.append({"op": "read", "view": rng.choice(
                 ["positions_xyz", "orientations_quat_wxyz", "distances"])})
+    if rng.random() < 0.3:
+        ops.append({"op": "project", "plane": rng.choice(["xy", "xz", "yz"])})
     return {"kind": "text_precision", "n": n, "stamped": rng.random() < 0.5,
+            # seven significant digits (text file) or single precision (poses
+            # computed elsewhere in float32)
+            "dtype": rng.choice(["text", "text", "float32"]),
             "data_seed": rng.getrandbits(30),
             "profile": {"scale": rng.choice([1.0, 10.0, 100.0]),
                         "rot": rng.choice(["uniform", "small", "planar"]),
@@ -468,7 +473,11 @@ def run_text_precision(evo, case, check):
     poses = []
     for i in range(case["n"]):
         T, _, _ = se3_from(list(quat[i]) + list(pos[i]))
-        poses.append(np.array([[float("%e" % x) for x in row] for row in T]))
+        if case.get("dtype") == "float32":
+            poses.append(T.astype(np.float32))
+        else:
+            poses.append(np.array([[float("%e" % x) for x in row]
+                                   for row in T]))
     T_ = evo.trajectory
     if case["stamped"]:
         obj = T_.PoseTrajectory3D(poses_se3=poses, timestamps=ts)
@@ -485,7 +494,28 @@ def run_text_precision(evo, case, check):
         trail.append([tag, sorted(bad), sorted(counts)])
         return bad, counts
 
-    bad, counts = state("input")
+    def crashed(stage, e, k=None):
+        # evo refuses with its own exceptions; anything else on input that
+        # its own is_se3() accepts is a breakdown
+        return {"class": "C08",
+                "sig": f"C08:text_precision:{stage}:unexpected-exception",
+                "detail": {"exception": f"{type(e).__name__}: {str(e)[:200]}",
+                           "dtype": case.get("dtype", "text"), "n": case["n"],
+                           "op_index": k}}
+
+    if not all(evo.lie.is_se3(p) for p in poses):
+        res.stats["probe.text_precision_input_rejected"] += 1
+        res.digest = digest_of(["not se3"])
+        return res
+    try:
+        bad, counts = state("input")
+    except evo.EvoException:
+        bad = {"refused": "by evo"}
+    except Exception as e:  # noqa
+        res.violation = crashed("input", e)
+        res.digest = digest_of([trail, res.violation["sig"]])
+        res.nontrivial_key = res.digest
+        return res
     if bad:
         # rounding pushed this one over evo's tolerance: not a valid input
         res.stats["probe.text_precision_input_rejected"] += 1
@@ -495,18 +525,28 @@ def run_text_precision(evo, case, check):
     violation = None
     for k, op in enumerate(case["ops"]):
         name = op["op"]
-        if name == "transform":
-            T, _, _ = se3_from(op["T"])
-            name = "transform_" + op["mode"]
-            obj.transform(T, right_mul=op["mode"] in ("right", "prop"),
-                          propagate=op["mode"] == "prop")
-        elif name == "scale":
-            obj.scale(op["s"])
-        elif name == "downsample":
-            obj.downsample(max(2, obj.num_poses // op["k"]))
-        elif name == "read":
-            getattr(obj, op["view"])
-        bad, counts = state(name)
+        try:
+            if name == "transform":
+                T, _, _ = se3_from(op["T"])
+                name = "transform_" + op["mode"]
+                obj.transform(T, right_mul=op["mode"] in ("right", "prop"),
+                              propagate=op["mode"] == "prop")
+            elif name == "scale":
+                obj.scale(op["s"])
+            elif name == "downsample":
+                obj.downsample(max(2, obj.num_poses // op["k"]))
+            elif name == "read":
+                getattr(obj, op["view"])
+            elif name == "project":
+                obj.project({"xy": T_.Plane.XY, "xz": T_.Plane.XZ,
+                             "yz": T_.Plane.YZ}[op["plane"]])
+            bad, counts = state(name)
+        except evo.EvoException:
+            res.stats["probe.text_precision_refused"] += 1
+            continue
+        except Exception as e:  # noqa
+            violation = crashed(name, e, k)
+            break
         if len(counts) != 1:
             violation = {"class": "C08",
                          "sig": f"C08:text_precision:{name}:view-count",
